@@ -23,10 +23,12 @@ import itertools
 import json
 import os
 import random
+import shutil
 
 import vlib
 
 LEVEL = "model_checking"
+SPECDIR = os.environ.get("C19_SPECDIR", "Persist")   # development knob: alternative spec directory
 
 REGISTRY = dict(
     level="model_checking",
@@ -45,16 +47,21 @@ REGISTRY = dict(
               "scheduler gate + TLC trace validation of every run")
 
 TIERS = {
-    "quick": dict(mc=[(4, 2)], cover=(3, 2), sim=dict(n=4, k=3, num=1000), rnd=dict(n=4, k=3, reps=1),
-                  btrace=600),
-    "thorough": dict(mc=[(5, 3)], cover=(4, 3), sim=dict(n=5, k=3, num=40000), rnd=dict(n=5, k=3, reps=6),
-                     btrace=15000),
+    # mc: (MaxN, MaxK, PPChoices); cover/sim: generation bounds; rnd: random runs per (n, k, fault vector, mode);
+    # big: random runs beyond the model's bounds (layer A only); fs: Generator.Persist on a real directory
+    "quick": dict(mc=[(4, 2, "{TRUE}"), (3, 2, "{FALSE}")], cover=(3, 2), sim=dict(n=4, k=3, num=1000),
+                  rnd=dict(n=4, k=3, reps=1), nopp=dict(n=3, k=2), big=dict(ns=(6, 8), k=4, num=150),
+                  fs=dict(n=3, k=2), btrace=600),
+    "thorough": dict(mc=[(5, 3, "{TRUE}"), (4, 3, "{FALSE}")], cover=(4, 3), sim=dict(n=5, k=3, num=40000),
+                     rnd=dict(n=5, k=3, reps=6), nopp=dict(n=4, k=3), big=dict(ns=(6, 7, 8, 10, 12), k=5, num=3000),
+                     fs=dict(n=4, k=3), btrace=15000),
 }
 
 MC_CFG = """SPECIFICATION Spec
 CONSTANTS
   MaxN = %d
   MaxK = %d
+  PPChoices = %s
   AtomicDoneRelease = FALSE
 INVARIANTS Invariants
 PROPERTIES Refines AlwaysReturns Terminates
@@ -64,6 +71,7 @@ GEN_CFG = """SPECIFICATION GSpec
 CONSTANTS
   MaxN = %d
   MaxK = %d
+  PPChoices = {TRUE, FALSE}
   AtomicDoneRelease = TRUE
 %s
 INVARIANTS %s
@@ -99,7 +107,7 @@ def classify(t):
             failed = failed or not e["ok"]
         elif k == "ppEnd":
             failed = failed or not e["ok"]
-    exp = {j["path"]: "pp(%s)" % j["content"] for j in t["jobs"]}
+    exp = {j["path"]: ("pp(%s)" % j["content"] if t.get("withpp", True) else j["content"]) for j in t["jobs"]}
     for e in t["ev"]:
         if e["e"] == "wBegin" and exp.get(e["path"]) != e["content"]:
             return "wrong-content-or-path"
@@ -117,9 +125,9 @@ def classify(t):
 def trace_class(c, t):
     f = t.get("fault") or []
     early = "errRecv" in t.get("d", [])
-    return "mode=%s n=%d k=%d ppfail=%d wrfail=%d ret=%s early=%s div=%s" % (
-        c.get("src", c["mode"]), t["n"], t["k"], f.count("pp"), f.count("wr"), t.get("ret"), int(early),
-        t.get("diverged") or "-")
+    return "src=%s pp=%d n=%d k=%d ppfail=%d wrfail=%d ret=%s early=%s div=%s" % (
+        c.get("src", c["mode"]), int(t.get("withpp", True)), min(t["n"], 9), t["k"], f.count("pp"), f.count("wr"),
+        t.get("ret"), int(early), t.get("diverged") or "-")
 
 
 # --------------------------------------------------------------------------- TLC helpers
@@ -130,8 +138,8 @@ def a_validate(ctx, traces, tag):
     for off in range(0, len(traces), CH):
         chunk = traces[off:off + CH]
         cf = ctx.path("atr-%s-%d.ndjson" % (tag, off))
-        vlib.write_ndjson(cf, [{"jobs": t["jobs"], "ev": t["ev"], "files": t["files"]} for t in chunk])
-        r = ctx.tlc("Persist", "Trace_PersistSpec", "Trace_PersistSpec", files={"traces.ndjson": cf},
+        vlib.write_ndjson(cf, [{"jobs": t["jobs"], "withpp": t["withpp"], "ev": t["ev"], "files": t["files"]} for t in chunk])
+        r = ctx.tlc(SPECDIR, "Trace_PersistSpec", "Trace_PersistSpec", files={"traces.ndjson": cf},
                     timeout=1500, label="Trace_PersistSpec[%s+%d]" % (tag, off))
         for s in r["lines"]:
             if s.startswith("ACC "):
@@ -143,8 +151,8 @@ def a_validate(ctx, traces, tag):
 def a_diagnose(ctx, traces):
     """longest matched prefix per trace (list of ints, number of matched events)."""
     cf = ctx.path("adiag.ndjson")
-    vlib.write_ndjson(cf, [{"jobs": t["jobs"], "ev": t["ev"], "files": t["files"]} for t in traces])
-    r = ctx.tlc("Persist", "Trace_PersistSpec", "Trace_PersistSpec_diag", files={"traces.ndjson": cf},
+    vlib.write_ndjson(cf, [{"jobs": t["jobs"], "withpp": t["withpp"], "ev": t["ev"], "files": t["files"]} for t in traces])
+    r = ctx.tlc(SPECDIR, "Trace_PersistSpec", "Trace_PersistSpec_diag", files={"traces.ndjson": cf},
                 timeout=600, workers=1, label="Trace_PersistSpec_diag")
     reach = {}
     for s in r["lines"]:
@@ -160,9 +168,9 @@ def b_validate(ctx, traces, tag):
     for off in range(0, len(traces), CH):
         chunk = traces[off:off + CH]
         cf = ctx.path("btr-%s-%d.ndjson" % (tag, off))
-        vlib.write_ndjson(cf, [{"n": t["n"], "k": t["k"], "fault": t["fault"], "d": t["d"], "w": t["w"],
+        vlib.write_ndjson(cf, [{"n": t["n"], "k": t["k"], "withpp": t["withpp"], "fault": t["fault"], "d": t["d"], "w": t["w"],
                                 "ret": t["ret"], "got": max(t["got"], 0)} for t in chunk])
-        r = ctx.tlc("Persist", "Trace_Persist", "Trace_Persist", files={"traces.ndjson": cf},
+        r = ctx.tlc(SPECDIR, "Trace_Persist", "Trace_Persist", files={"traces.ndjson": cf},
                     timeout=2400, label="Trace_Persist[%s+%d]" % (tag, off))
         for s in r["lines"]:
             if s.startswith("ACC "):
@@ -173,15 +181,34 @@ def b_validate(ctx, traces, tag):
 
 # --------------------------------------------------------------------------- harness
 def run_cases(ctx, harness, cases, tag):
-    casef = ctx.path("cases-%s.ndjson" % tag)
-    outf = ctx.path("runs-%s.ndjson" % tag)
-    vlib.write_ndjson(casef, [{k: v for k, v in c.items() if k not in ("src", "model")} for c in cases])
-    ctx.run([harness, "persist", casef, outf], timeout=1800)
-    res = vlib.read_ndjson(outf)
-    if len(res) != len(cases):
-        raise vlib.MachineryError("harness returned %d results for %d cases" % (len(res), len(cases)))
-    os.remove(casef)
-    os.remove(outf)
+    """run cases through the harness; cases with an "fs" field go through persistfs (one at a time, each in
+    a fresh directory under the scratch area), the others through persist (in parallel)."""
+    res = [None] * len(cases)
+    for sub, sel in (("persist", [i for i, c in enumerate(cases) if not c.get("fs")]),
+                     ("persistfs", [i for i, c in enumerate(cases) if c.get("fs")])):
+        if not sel:
+            continue
+        casef = ctx.path("cases-%s-%s.ndjson" % (tag, sub))
+        outf = ctx.path("runs-%s-%s.ndjson" % (tag, sub))
+        rows = []
+        for i in sel:
+            row = {k: v for k, v in cases[i].items() if k not in ("src", "model")}
+            if sub == "persistfs":
+                ctx.fsdirs = getattr(ctx, "fsdirs", 0) + 1
+                row["fs"] = dict(row["fs"], dir=ctx.path("fs", "%s-%d" % (tag, ctx.fsdirs), "out"))
+            rows.append(row)
+        vlib.write_ndjson(casef, rows)
+        ctx.run([harness, sub, casef, outf], timeout=3000, cwd=ctx.scratch)
+        out = vlib.read_ndjson(outf)
+        if len(out) != len(sel):
+            raise vlib.MachineryError("harness returned %d results for %d cases" % (len(out), len(sel)))
+        for i, t in zip(sel, out):
+            if t.get("panic", "").startswith("harness:"):
+                raise vlib.MachineryError("harness could not prepare a case: " + t["panic"])
+            res[i] = t
+        os.remove(casef)
+        os.remove(outf)
+    shutil.rmtree(os.path.join(ctx.scratch, "fs"), ignore_errors=True)
     return res
 
 
@@ -197,6 +224,8 @@ def fill_faults(rng, c):
             out.append("none")
         elif pp == "ok":
             out.append(rng.choice(["none", "wr"]))
+        elif not c["withpp"]:
+            out.append(rng.choice(["none", "none", "wr"]))
         else:
             out.append(rng.choice(["none", "none", "pp", "wr"]))
     return out
@@ -279,19 +308,19 @@ def run(ctx, args):
     T = TIERS[ctx.tier]
 
     # ---- 1. design level: the model itself
-    ctx.tlc("Persist", "PersistSpec", "MC_PersistSpec", timeout=300, label="MC_PersistSpec")
-    for (mn, mk) in T["mc"]:
-        ctx.tlc("Persist", "Persist", "mc.cfg", files={"mc.cfg": MC_CFG % (mn, mk)}, timeout=3000,
-                label="MC_Persist[n<=%d,k<=%d]" % (mn, mk))
+    ctx.tlc(SPECDIR, "PersistSpec", "MC_PersistSpec", timeout=300, label="MC_PersistSpec")
+    for (mn, mk, ppc) in T["mc"]:
+        ctx.tlc(SPECDIR, "Persist", "mc.cfg", files={"mc.cfg": MC_CFG % (mn, mk, ppc)}, timeout=6000,
+                label="MC_Persist[n<=%d,k<=%d,pp:%s]" % (mn, mk, ppc))
 
     # ---- 2. generate schedules
     cn, ck = T["cover"]
-    r = ctx.tlc("Persist", "Gen_Persist", "gen.cfg",
+    r = ctx.tlc(SPECDIR, "Gen_Persist", "gen.cfg",
                 files={"gen.cfg": GEN_CFG % (cn, ck, "VIEW View", "EmitState")}, timeout=3000,
                 label="Gen_Persist[cover n<=%d,k<=%d]" % (cn, ck))
     cover = ctx.tlc_cases(r)
     sw = 4
-    r = ctx.tlc("Persist", "Gen_Persist", "gen.cfg",
+    r = ctx.tlc(SPECDIR, "Gen_Persist", "gen.cfg",
                 files={"gen.cfg": GEN_CFG % (T["sim"]["n"], T["sim"]["k"], "", "EmitTerminal")},
                 mode="simulate", simulate=max(1, T["sim"]["num"] // sw), depth=200, workers=sw, timeout=3000,
                 label="Gen_Persist[simulate n<=%d,k<=%d]" % (T["sim"]["n"], T["sim"]["k"]))
@@ -299,7 +328,7 @@ def run(ctx, args):
     seen = set()
     usim = []
     for c in sim:
-        key = json.dumps([c["n"], c["k"], c["h"], c["fault"]])
+        key = json.dumps([c["n"], c["k"], c["withpp"], c["h"], c["fault"]])
         if key not in seen:
             seen.add(key)
             usim.append(c)
@@ -319,6 +348,8 @@ def run(ctx, args):
         "behaviour: early error return": any(any(s["to"] == "errRecv" for s in c["h"]) for c in sim),
         "behaviour: error found after the final wait": any(any(s["to"] == "finalErr" for s in c["h"]) for c in sim),
         "behaviour: write failure": any("wr" in c["fault"] for c in sim),
+        "behaviour: no post-processor": any(not c["withpp"] and c["n"] >= 2 for c in sim),
+        "state: no post-processor, write in flight": any(not c["withpp"] and c["inflight"] > 0 for c in cover),
     }
     missing = [k for k, v in need.items() if not v]
     if missing:
@@ -327,10 +358,11 @@ def run(ctx, args):
     cases = []
     for c in cover:
         cases.append(dict(id=len(cases), n=c["n"], k=c["k"], fault=fill_faults(rng, c), mode="replay", h=c["h"],
-                          tail=rng.choice(["free", "rand"]), seed=rng.randrange(1 << 30), src="cover", model=c))
+                          nopp=not c["withpp"], tail=rng.choice(["free", "rand"]), seed=rng.randrange(1 << 30),
+                          src="cover", model=c))
     for c in sim:
         cases.append(dict(id=len(cases), n=c["n"], k=c["k"], fault=c["fault"], mode="replay", h=c["h"], tail="rand",
-                          seed=rng.randrange(1 << 30), src="sim", model=c))
+                          nopp=not c["withpp"], seed=rng.randrange(1 << 30), src="sim", model=c))
     nrep = len(cases)
     rn = T["rnd"]
     for n in range(0, rn["n"] + 1):
@@ -340,6 +372,35 @@ def run(ctx, args):
                     for _ in range(rn["reps"]):
                         cases.append(dict(id=len(cases), n=n, k=k, fault=list(fv), mode=mode,
                                           seed=rng.randrange(1 << 30), src=mode))
+    # no post-processor configured (p.pp == nil)
+    np_ = T["nopp"]
+    for n in range(0, np_["n"] + 1):
+        for k in range(1, np_["k"] + 1):
+            for fv in itertools.product(["none", "wr"], repeat=n):
+                for mode in ("free", "rand"):
+                    cases.append(dict(id=len(cases), n=n, k=k, fault=list(fv), mode=mode, nopp=True,
+                                      seed=rng.randrange(1 << 30), src="nopp-" + mode))
+    # beyond the model's bounds: more jobs, more parallelism, random fault vectors (layer A only)
+    bg = T["big"]
+    for _ in range(bg["num"]):
+        n = rng.choice(bg["ns"])
+        pf = rng.choice([0.0, 0.1, 0.3, 0.6])
+        fv = [rng.choice(["pp", "wr"]) if rng.random() < pf else "none" for _ in range(n)]
+        cases.append(dict(id=len(cases), n=n, k=rng.randint(1, bg["k"]), fault=fv, mode=rng.choice(["free", "rand"]),
+                          seed=rng.randrange(1 << 30), src="big"))
+    # the real Generator.Generate + Generator.Persist on a real directory (path resolution, MkdirAll + WriteFile
+    # callback; concurrency = GOMAXPROCS; write faults are real: parent is a file / path is a directory)
+    fsb = T["fs"]
+    for n in range(0, fsb["n"] + 1):
+        for k in range(1, fsb["k"] + 1):
+            for fv in itertools.product(["none", "pp", "wr"], repeat=n):
+                for mode in ("free", "rand"):
+                    cases.append(dict(id=len(cases), n=n, k=k, fault=list(fv), mode=mode, seed=rng.randrange(1 << 30),
+                                      fs=dict(rel=rng.random() < 0.5), src="fs-" + mode))
+            for fv in itertools.product(["none", "wr"], repeat=min(n, 2)):
+                fv = list(fv) + ["none"] * (n - len(fv))
+                cases.append(dict(id=len(cases), n=n, k=k, fault=fv, mode="rand", nopp=True, seed=rng.randrange(1 << 30),
+                                  fs=dict(rel=rng.random() < 0.5), src="fs-nopp"))
     # concurrency <= 0 is normalised to 1
     for kk in (0, -1):
         for fv in (["none", "none"], ["pp", "none"], ["none", "wr"]):
@@ -381,14 +442,16 @@ def run(ctx, args):
         if t["diverged"] == "" and m["terminal"] and t["followed"] == len(c["h"]):
             exact += 1
             files = {f["path"]: f["contents"] for f in t["files"]}
-            want = {"f%d" % (j + 1): ["pp(c%d)" % (j + 1)] for j in range(m["n"]) if m["files"][j] == 1}
+            want = {"f%d" % (j + 1): [("pp(c%d)" if m["withpp"] else "c%d") % (j + 1)]
+                    for j in range(m["n"]) if m["files"][j] == 1}
             if t["ret"] != m["ret"] or (m["ret"] == "err" and t["got"] != m["got"]) or files != want:
                 drift.append("case %d: model final state ret=%s got=%s files=%s, real ret=%s got=%s files=%s" % (
                     i, m["ret"], m["got"], sorted(want), t["ret"], t["got"], sorted(files)))
     if exact == 0:
         raise vlib.MachineryError("no complete behaviour could be followed exactly")
     pool = [i for i, (c, t) in enumerate(zip(allcases, allruns))
-            if not t.get("skipped") and not t["hang"] and i in accepted and t["leaked"] == 0
+            if not t.get("skipped") and not t["hang"] and i in accepted and t["leaked"] == 0 and not t["fs"]
+            and t["n"] <= 6
             and (c["mode"] != "replay" or t["diverged"] == "select" or not c["model"]["terminal"])]
     rng.shuffle(pool)
     pool = pool[:T["btrace"]]
